@@ -302,6 +302,9 @@ impl Sc for SymR {
     fn input(name: &str) -> Self {
         SymR::var(name)
     }
+    fn node_id(self) -> Option<u32> {
+        Some(self.0)
+    }
     fn q(n: i64, d: i64) -> Self {
         SymR::konst(n as i128, d as i128)
     }
